@@ -54,7 +54,9 @@ class Sampler:
         self._last_checkpoint_state: dict | None = None
         self._last_checkpoint_bytes: bytes | None = None
         if preconditioning_transform is None:
-            self.preconditioning_transform = IdentityTransform(xp=self.xp)
+            self.preconditioning_transform = IdentityTransform(
+                xp=self.xp, dtype=self.dtype
+            )
         else:
             self.preconditioning_transform = preconditioning_transform
 
